@@ -381,14 +381,71 @@ func (fa *flowAnalyzer) shared(e ast.Expr, st *fstate, needDeref bool) (bool, in
 }
 
 func (fa *flowAnalyzer) noteWrite(p token.Pos, msg string, pi int) {
+	fa.noteWriteX(p, msg, pi, false)
+}
+
+// noteWriteX: shallow = the write assigns to a pointer parameter's own pointee.
+func (fa *flowAnalyzer) noteWriteX(p token.Pos, msg string, pi int, shallow bool) {
 	m := fmt.Sprintf("%s: %s", fa.pos(p), msg)
 	if !fa.seenMsg[m] {
 		fa.seenMsg[m] = true
 		fa.s.writes = append(fa.s.writes, m)
 	}
+	if shallow && pi != -2 {
+		fa.s.shallowMsg[m] = true
+	}
 	if pi != -2 {
 		fa.s.modParams[pi] = true
+		if !shallow {
+			fa.s.deepParams[pi] = true
+		}
 	}
+}
+
+// exactParam: e is one of the function's pointer parameters itself, possibly
+// parenthesised or converted to another pointer type.
+func (fa *flowAnalyzer) exactParam(e ast.Expr) (types.Object, bool) {
+	for {
+		e = ast.Unparen(e)
+		if c, ok := e.(*ast.CallExpr); ok && len(c.Args) == 1 {
+			if tv, ok := fa.info.Types[c.Fun]; ok && tv.IsType() {
+				e = c.Args[0]
+				continue
+			}
+		}
+		break
+	}
+	id, ok := e.(*ast.Ident)
+	if !ok {
+		return nil, false
+	}
+	o := fa.info.ObjectOf(id)
+	if o == nil {
+		return nil, false
+	}
+	if _, isP := fa.paramIdx[o]; !isP || !isPointer(o.Type()) {
+		return nil, false
+	}
+	return o, true
+}
+
+// shallowTarget: the assignment target is `*p` or `p.f` for a pointer parameter p
+// that still holds the caller's pointer.
+func (fa *flowAnalyzer) shallowTarget(l ast.Expr, st *fstate) bool {
+	switch x := ast.Unparen(l).(type) {
+	case *ast.StarExpr:
+		o, ok := fa.exactParam(x.X)
+		return ok && !st.fresh[o]
+	case *ast.SelectorExpr:
+		o, ok := fa.exactParam(x.X)
+		if !ok || st.fresh[o] {
+			return false
+		}
+		if sel, ok := fa.info.Selections[x]; ok && sel.Kind() == types.FieldVal && len(sel.Index()) == 1 {
+			return true
+		}
+	}
+	return false
 }
 
 // setVar records the assignment x = rhs (or x declared with rhs).
@@ -598,7 +655,7 @@ func (fa *flowAnalyzer) stmt(s ast.Stmt, st *fstate) *fstate {
 				}
 				fa.expr(l, st)
 				if sh, pi, why := fa.shared(l, st, true); sh {
-					fa.noteWrite(l.Pos(), "assignment `"+exprText(l)+" "+x.Tok.String()+" …` writes "+why, pi)
+					fa.noteWriteX(l.Pos(), "assignment `"+exprText(l)+" "+x.Tok.String()+" …` writes "+why, pi, fa.shallowTarget(l, st))
 				}
 			}
 		}
@@ -899,6 +956,18 @@ func (fa *flowAnalyzer) expr(e ast.Expr, st *fstate) {
 					return
 				}
 				e := a
+				if _, ok := fa.exactParam(a); ok {
+					// a pointer parameter converted to another pointer type is still that parameter
+					for {
+						e = ast.Unparen(e)
+						c, isCall := e.(*ast.CallExpr)
+						if !isCall {
+							break
+						}
+						e = c.Args[0]
+					}
+					a = e
+				}
 				if u, ok := ast.Unparen(a).(*ast.UnaryExpr); ok && u.Op == token.AND {
 					e = u.X
 					if o, d, _ := fa.root(e); o != nil && !d && fa.isLocal(o) && !isRefType(info.TypeOf(e)) {
@@ -912,7 +981,8 @@ func (fa *flowAnalyzer) expr(e ast.Expr, st *fstate) {
 				}
 				sh, pi, why := fa.shared(e, st, false)
 				if sh {
-					fc.args[i] = frameArg{shared: true, fromParam: pi, text: exprText(a) + " (" + why + ")"}
+					_, ex := fa.exactParam(a)
+					fc.args[i] = frameArg{shared: true, fromParam: pi, text: exprText(a) + " (" + why + ")", exact: ex}
 				}
 			}
 			if se, ok := ast.Unparen(x.Fun).(*ast.SelectorExpr); ok {
